@@ -13,7 +13,9 @@ package main
 // is the set of locks held CONTINUOUSLY from the read to the write (so M is not in it).
 // On the machine of LockTableMore.v a thread may drop and re-take any lock the active row
 // does not name, which is exactly this behaviour; drf_ok accepts such a row only if some
-// other lock / thread class makes it atomic.
+// other lock / thread class makes it atomic. The same row is printed for an atomic Load* of
+// X whose value reaches an atomic Store* to X (two atomic operations are not one: no data race,
+// but increments are lost and sequence numbers are handed out twice).
 //
 // Rule USE-AFTER-RELEASE. For a type T under a `virtual-lock` annotation (reference-count
 // protocol) the annotation is honoured only while the function owns a reference. After
@@ -43,6 +45,7 @@ type taint struct {
 	field  string // canonical expression of the field, e.g. r#123.latestStats
 	pos    token.Pos
 	heldAt map[string]int
+	atomic bool // read by sync/atomic Load*
 }
 
 // derived: the local variable was assigned from an accessor of a virtual-lock object.
@@ -181,11 +184,12 @@ func (w *walker) targetField(l ast.Expr) *ast.SelectorExpr {
 
 // assignRules is called for `lhs[i] (=|:=|op=) rhs` after the ordinary processing of the statement.
 // rhs may be shared by several lhs (multi-value call).
-func (w *walker) assignRules(lhs ast.Expr, rhs ast.Expr) {
+// keep: the old value of lhs is part of the new one (op-assignment).
+func (w *walker) assignRules(lhs ast.Expr, rhs ast.Expr, keep bool) {
 	r := w.rs()
 	// 1. a tracked field is written: is the value derived from an earlier read of the same field in another critical section?
 	if tf := w.targetField(lhs); tf != nil {
-		w.checkSplit(tf, rhs)
+		w.checkSplit(tf, rhs, false)
 	}
 	id, ok := lhs.(*ast.Ident)
 	if !ok || id.Name == "_" {
@@ -197,10 +201,18 @@ func (w *walker) assignRules(lhs ast.Expr, rhs ast.Expr) {
 	}
 	// 2. taints of the local variable: field reads in rhs + taints of the locals rhs mentions
 	var ts []taint
+	if keep {
+		ts = append(ts, r.taints[obj]...)
+	}
 	if len(w.held) > 0 {
 		snap := w.heldSnapshot()
 		for _, s := range w.fieldSelectors(rhs) {
 			ts = append(ts, taint{field: w.canon(s), pos: s.Pos(), heldAt: snap})
+		}
+	}
+	if call, ok := ast.Unparen(rhs).(*ast.CallExpr); ok {
+		if s := w.atomicTarget(call, "Load"); s != nil {
+			ts = append(ts, taint{field: w.canon(s), pos: s.Pos(), heldAt: w.heldSnapshot(), atomic: true})
 		}
 	}
 	for _, u := range w.identsIn(rhs) {
@@ -215,6 +227,9 @@ func (w *walker) assignRules(lhs ast.Expr, rhs ast.Expr) {
 		r.taints[obj] = ts
 	} else {
 		delete(r.taints, obj)
+	}
+	if keep {
+		return
 	}
 	// 3. use-after-release bookkeeping
 	c := w.canon(id)
@@ -246,7 +261,8 @@ func (w *walker) assignRules(lhs ast.Expr, rhs ast.Expr) {
 }
 
 // checkSplit reports a split read-modify-write of the field written through tf.
-func (w *walker) checkSplit(tf *ast.SelectorExpr, rhs ast.Expr) {
+// atomicStore: the write is a sync/atomic Store* (then an atomic Load* of the same field is the split read).
+func (w *walker) checkSplit(tf *ast.SelectorExpr, rhs ast.Expr, atomicStore bool) {
 	r := w.rs()
 	field := w.canon(tf)
 	now := w.heldSnapshot()
@@ -266,7 +282,8 @@ func (w *walker) checkSplit(tf *ast.SelectorExpr, rhs ast.Expr) {
 					split = append(split, k[strings.Index(k, "|")+1:])
 				}
 			}
-			if len(split) == 0 {
+			atomicSplit := t.atomic && atomicStore
+			if len(split) == 0 && !atomicSplit {
 				continue
 			}
 			sort.Strings(split)
@@ -282,6 +299,10 @@ func (w *walker) checkSplit(tf *ast.SelectorExpr, rhs ast.Expr) {
 			w.held = cont
 			note := fmt.Sprintf("SPLIT READ-MODIFY-WRITE: read at line %d under %s, lock released, written back in a later critical section (via %s)",
 				w.sc.ld.fset.Position(t.pos).Line, strings.Join(split, ","), u.Name)
+			if len(split) == 0 {
+				note = fmt.Sprintf("SPLIT READ-MODIFY-WRITE: atomic load at line %d, atomic store of a value derived from it (via %s): two atomic operations are not one",
+					w.sc.ld.fset.Position(t.pos).Line, u.Name)
+			}
 			w.accessNamed(tf, "", "rmw", note)
 			w.held = saved
 
@@ -389,5 +410,33 @@ func (w *walker) emitAfterRelease(si *structInfo, fields []string, pos token.Pos
 	for _, f := range fields {
 		// no lock, any thread: holding no reference, the function has no claim on the object
 		w.emit(si, f, "read", nil, w.c.phase, classAny, nil, anns, note, pos)
+	}
+}
+
+// atomicTarget: call is sync/atomic.<prefix>*(&x.f, ..) on a tracked field; returns x.f.
+func (w *walker) atomicTarget(call *ast.CallExpr, prefix string) *ast.SelectorExpr {
+	fs, ok := call.Fun.(*ast.SelectorExpr)
+	if !ok || len(call.Args) == 0 || !strings.HasPrefix(fs.Sel.Name, prefix) {
+		return nil
+	}
+	pid, ok := fs.X.(*ast.Ident)
+	if !ok {
+		return nil
+	}
+	if pn, ok := w.info.Uses[pid].(*types.PkgName); !ok || pn.Imported().Path() != "sync/atomic" {
+		return nil
+	}
+	u, ok := call.Args[0].(*ast.UnaryExpr)
+	if !ok || u.Op != token.AND {
+		return nil
+	}
+
+	return w.targetField(u.X)
+}
+
+// atomicStoreRules is called for sync/atomic.Store*(&x.f, v).
+func (w *walker) atomicStoreRules(call *ast.CallExpr) {
+	if s := w.atomicTarget(call, "Store"); s != nil && len(call.Args) > 1 {
+		w.checkSplit(s, call.Args[1], true)
 	}
 }
